@@ -749,6 +749,22 @@ func (e *containerExec) one(s *CStep) {
 		} else {
 			setData(flipBit(getData(), s.Pos), false)
 		}
+	case "alias_cid":
+		// one block filed under the label of ANOTHER block of the same file (its data untouched,
+		// or garbage): two blocks, one label
+		if isCar && n >= 2 {
+			j := (idx + 1 + s.Pos%(n-1)) % n
+			car.Blocks[idx].CID = append([]byte{}, car.Blocks[j].CID...)
+			if s.Pos%3 == 0 {
+				car.Blocks[idx].Data = []byte{0x82, 0x41, 0x00, 0xa0}
+			}
+			// the aliased block before or after the genuine one
+			if s.Pos%2 == 0 && idx < j {
+				car.Blocks[idx], car.Blocks[j] = car.Blocks[j], car.Blocks[idx]
+			}
+		} else {
+			setData(flipBit(getData(), s.Pos), false)
+		}
 	case "foreign_entry":
 		d := cbArray(cbBytes([]byte{1, 2, 3}), cbMap(cbText("h"), cbBytes([]byte{0x34}), cbText("x"), cbInt(int64(s.Pos)))).Encode()
 		if s.Pos%2 == 0 {
@@ -1004,7 +1020,7 @@ func genContainer(r *Rand, g GenCfg) Plan {
 	for i := r.Range(1, 3); i > 0; i-- {
 		p.Steps = append(p.Steps, CStep{Op: "roundtrip", Format: Pick(r, containerAPIs()), WStream: r.Chance(0.5), RStream: r.Chance(0.5), Chunks: mkChunks(), Perm: r.Perm(n)})
 	}
-	faults := []string{"bad_frame", "hostile_len", "data_flip", "data_flip", "data_flip_relabel", "data_flip_relabel", "cid_flip", "swap_cids", "foreign_entry", "dup_entry", "drop_byte", "len_flip", "version_flip", "trunc", "trailing", "text_flip", "edge_trunc", "edge_trunc", "edge_bad", "edge_bad"}
+	faults := []string{"bad_frame", "hostile_len", "data_flip", "data_flip", "data_flip_relabel", "data_flip_relabel", "cid_flip", "swap_cids", "foreign_entry", "dup_entry", "drop_byte", "len_flip", "version_flip", "trunc", "trailing", "text_flip", "edge_trunc", "edge_trunc", "edge_bad", "edge_bad", "alias_cid", "alias_cid"}
 	for i := r.Range(2, 12); i > 0; i-- {
 		pos := r.Intn(1 << 13)
 		if r.Chance(0.3) {
